@@ -355,17 +355,19 @@ class NestedTransition(Transition):
             queue = []
             prefix = prefix_path
             scoped_tree = new_states
+            # (name, state) pairs: the plain names are used as keys, state.name is scope dependent while a
+            # callback of that state is running (an event triggered from there may enter it again)
             initial_names = [i.name if hasattr(i, 'name') else i for i in listify(event_data.machine.scoped.initial)]
-            initial_states = [event_data.machine.scoped.states[n] for n in initial_names]
+            initial_states = [(n, event_data.machine.scoped.states[n]) for n in initial_names]
             while True:
                 event_data.scope = prefix
-                for state in initial_states:
+                for name, state in initial_states:
                     enter_partials.append(partial(state.scoped_enter, event_data, prefix))
-                    scoped_tree[state.name] = OrderedDict()
+                    scoped_tree[name] = OrderedDict()
                     if state.initial:
-                        queue.append((scoped_tree[state.name], prefix + [state.name],
-                                     [state.states[i.name] if hasattr(i, 'name') else state.states[i]
-                                     for i in listify(state.initial)]))
+                        child_names = [i.name if hasattr(i, 'name') else i for i in listify(state.initial)]
+                        queue.append((scoped_tree[name], prefix + [name],
+                                     [(n, state.states[n]) for n in child_names]))
                 if not queue:
                     break
                 scoped_tree, prefix, initial_states = queue.pop(0)
